@@ -4,6 +4,8 @@ import Proofs.CacheLru
 import Proofs.CacheLruSpec
 import Proofs.CacheSys
 import Proofs.CacheMicro
+import Proofs.CacheRing
+import Proofs.CacheRingRun
 /-!
 # C17 — Resolver caches never serve stale data, honour the LRU bound, are linearizable
 
@@ -121,6 +123,47 @@ example : specRun (fun _ => none) [.put 1 ⟨7, 1010⟩, .put 1 ⟨8, 1020⟩, .
 a dict: `data` and the ring agree), for both variants. -/
 theorem ring_wf (n : Int) (t0 : Nat) (ops : List Op) : RingNodup (reachL n t0 ops).ring :=
   (invL_run (initL n t0) ops (invL_init n t0)).nodup
+
+/-! ## the ring at pointer level
+
+`LRUCacheNode.link_after` / `unlink` are modelled as coded (two resp. four pointer assignments, each reading what the
+previous one wrote), `put`'s make-room loop and `set_max_size`'s shrink loop follow `sentinel.prev`, `flush()` follows
+`gnode.next`.  `Ring p l` says that `next` leads from the sentinel through exactly the nodes `l` and back, that `prev`
+is its inverse, and that no node occurs twice. -/
+
+/-- "the doubly linked list and the dict must agree after every prefix of every sequence": run the pointer
+operations of the methods (`stepP`) next to the list model from the constructor through **any** operation sequence;
+the `prev`/`next` pointers then represent exactly the list model's ring (node of key `k` ↦ `k + 1`, sentinel 0): a
+single cycle through the sentinel, `prev` inverse to `next`, same nodes in the same order, `sentinel.next` the most
+and `sentinel.prev` the least recently used node. -/
+theorem ring_pointers_refine (n : Int) (t0 : Nat) (ops : List Op) :
+    Ring (runPL ptrs0 (initL n t0) ops).1 (ids (reachL n t0 ops).ring) ∧
+    (runPL ptrs0 (initL n t0) ops).1.next 0 = ((ids (reachL n t0 ops).ring).head?).getD 0 ∧
+    (runPL ptrs0 (initL n t0) ops).1.prev 0 = ((ids (reachL n t0 ops).ring).getLast?).getD 0 := by
+  have h := ring_runPL ptrs0 (initL n t0) ops (invL_init n t0) (by simpa [ids, initL] using ring_ptrs0)
+  rw [h.2] at h
+  exact ⟨h.1, ring_first _ _ h.1, ring_last _ _ h.1⟩
+
+/-- `link_after(sentinel)` and `unlink()` on any well-formed ring (the two pointer lemmas everything rests on). -/
+theorem link_unlink_correct (p : Ptrs) (l : List Nat) (x : Nat) (h : Ring p l) :
+    (x ≠ 0 → x ∉ l → Ring (linkAfter p x 0) (x :: l)) ∧ (x ∈ l → Ring (unlinkP p x) (l.erase x)) :=
+  ⟨fun h0 hx => ring_link p l x h h0 hx, fun hx => ring_unlink p l x h hx⟩
+
+example : (runPL ptrs0 (initL 2 0) [.put 0 ⟨0, 9⟩, .put 1 ⟨1, 9⟩, .get 0, .put 2 ⟨2, 9⟩]).1.next 0 = 3 := by decide
+example : (runPL ptrs0 (initL 2 0) [.put 0 ⟨0, 9⟩, .put 1 ⟨1, 9⟩, .get 0, .put 2 ⟨2, 9⟩]).1.prev 0 = 1 := by decide
+-- dropping `node.next.prev = self` from link_after breaks the representation (the prev-ring no longer closes)
+example : ({ next := setP (setP ptrs0.next 1 0) 0 1, prev := setP ptrs0.prev 1 0 } : Ptrs).prev 0 ≠ 1 := by decide
+
+/-- "hit counters per key": after any operation sequence every cached node's `hits` (what `get_hits_for_key`
+reports for an unexpired entry) is the number of lookups of that key that returned an answer since the key was last
+stored. -/
+theorem hits_for_key_exact (n : Int) (t0 : Nat) (ops : List Op) :
+    ∀ nd ∈ (reachL n t0 ops).ring,
+      nd.hits = hitsSpec (fun _ => 0) (ops.zip (runL (initL n t0) ops).2) nd.key :=
+  hitsOk_run (initL n t0) (fun _ => 0) ops (invL_init n t0) (fun _ hx => nomatch hx)
+
+example : (stepL (reachL 2 0 [.put 0 ⟨0, 9⟩, .get 0, .get 0, .get 1]) (.hitsFor 0)).2 = .num 2 := by decide
+example : (stepL (reachL 2 0 [.put 0 ⟨0, 9⟩, .get 0, .put 0 ⟨1, 9⟩]) (.hitsFor 0)).2 = .num 0 := by decide
 
 /-! ## the LRU bound -/
 
